@@ -590,7 +590,6 @@ impl StorageTxn for Txn<'_> {
     // ---- outside the verifier's language subset (nested closures over `self` inside Option::map(..).flatten()): NOT verified;
     // ---- the stand-in is assumed to satisfy the trait contract, listed in the evidence as out_of_reach
 
-//@watch C16 :: src/storage/inmemory.rs :: impl StorageTxn for Txn<'_> :: fn get_pending_tasks
     #[verifier::external_body]
     fn get_pending_tasks(&mut self) -> (r: Result<Vec<(Uuid, TaskMap)>>)
     { unimplemented!() }
